@@ -67,6 +67,15 @@ def m3(ck, em, rng, count):
                 if len(init["weights"]) == 1:
                     break
                 X, init = gt.make_problem(r)
+        storage = None
+        if t % 7 == 3 and not stationary:
+            # integer storage (round eight): features as a front end delivers them -- int16 / int32 counts whose SQUARES
+            # do not fit the storage type (|x| up to ~250 in int16, ~60000 in int32); the statistics are moments in
+            # float64 whatever the storage, so the trajectory is the one of the float64 copy of the same numbers
+            storage, top = [("int16", 250.0), ("int32", 60000.0), ("int16", 1500.0)][(t // 7) % 3]
+            sc = top / max(1e-9, float(np.abs(X).max()))
+            X = np.round(X * sc).astype(storage)
+            init = dict(init, means=np.asarray(init["means"]) * sc, variances=np.asarray(init["variances"]) * sc * sc)
         # half of the traces on the switch sets that freeze the means while updating the variances
         sw = gt.SWITCHES[(t // 2) % 8] if t % 2 else [(False, True, False), (False, True, True)][(t // 2) % 2]
         cap = int(r.randint(2, 7))
@@ -125,7 +134,7 @@ def m3(ck, em, rng, count):
         tr["cap"] = tcap
         trs.append(tr)
         meta.append({"seed": seed, "n": len(X), "d": X.shape[1], "C": len(init["weights"]), "switches(um,uv,uw)": sw,
-                     "cap": fcap, "thr": thr, "placed": placed, "chunks": chunks, "trainer_set_after_construction": t % 3 == 2, "avg_loglik": A})
+                     "cap": fcap, "thr": thr, "placed": placed, "chunks": chunks, "storage": storage, "trainer_set_after_construction": t % 3 == 2, "avg_loglik": A})
     verdicts = traces.validate(ck, "gmmml", ck.work, trs)
     for tr, me, (v, pos) in zip(trs, meta, verdicts):
         ck.replayed += 1
